@@ -159,8 +159,7 @@ fn check_votes(run: &Run, n: &Node) {
     // a node restarted from a block that holds a Stake transaction (registered or not) carries exactly the stakes of the original
     if let Real::Sealed(s) = &n.real {
         if n.model.block_txs.values().any(|t| t.kind == TxKind::Stake) {
-            let db = s.raw_coins_smt().database();
-            if let Ok(r) = crate::guard::guard(|| melstf::SealedState::from_block(&s.to_block(), &s.raw_stakes(), &db)) {
+            if let Ok(r) = crate::guard::guard(|| crate::world::restart_from_disk(s)) {
                 run.transition();
                 run.validated();
                 let a: BTreeMap<_, _> = r.raw_stakes().iter().map(|(k, d)| (*k, (d.pubkey, d.e_start, d.e_post_end, d.syms_staked))).collect();
